@@ -21,6 +21,12 @@ pub fn dispatch(op: &str, a: &[Val]) -> Option<Val> {
         "td.minutes" => (|| Some(vopt(TimeDelta::try_minutes(a.get(0)?.i64()?), enc_td)))(),
         "td.seconds" => (|| Some(vopt(TimeDelta::try_seconds(a.get(0)?.i64()?), enc_td)))(),
         "td.millis" => (|| Some(vopt(TimeDelta::try_milliseconds(a.get(0)?.i64()?), enc_td)))(),
+        "td.pweeks" => (|| Some(enc_td(TimeDelta::weeks(a.get(0)?.i64()?))))(),
+        "td.pdays" => (|| Some(enc_td(TimeDelta::days(a.get(0)?.i64()?))))(),
+        "td.phours" => (|| Some(enc_td(TimeDelta::hours(a.get(0)?.i64()?))))(),
+        "td.pminutes" => (|| Some(enc_td(TimeDelta::minutes(a.get(0)?.i64()?))))(),
+        "td.pseconds" => (|| Some(enc_td(TimeDelta::seconds(a.get(0)?.i64()?))))(),
+        "td.pmillis" => (|| Some(enc_td(TimeDelta::milliseconds(a.get(0)?.i64()?))))(),
         "td.micros" => (|| Some(enc_td(TimeDelta::microseconds(a.get(0)?.i64()?))))(),
         "td.nanos" => (|| Some(enc_td(TimeDelta::nanoseconds(a.get(0)?.i64()?))))(),
         "td.acc" => (|| Some(acc(dec_td(a.get(0)?)?)))(),
